@@ -1,0 +1,28 @@
+//go:build verif
+
+// Contracts for the verification machinery under /verif (contract-based deductive
+// verification). This file is comment-only, is excluded from every normal build by the
+// "verif" build tag, and declares nothing. See /verif/DESIGN.md §4.
+
+package canonical
+
+//@ iface Option.updateCanonical(o, data)
+//@   requires data != nil
+//@   assigns data.fragment, data.version
+
+// C19: splitting a canonical never crashes: a value without a url part is ErrNoCanonicalURL
+// (or the constructor's missing-url error), anything else an identity
+//@ func IdentityFromReference(c) (res, err)
+//@   ensures (err == nil) == (res != nil)
+//@   loop 1 (k):
+//@     invariant nn(match) && len(match) == reNumSub(canonicalRegExp) + 1
+
+// C19: assembling url|version#fragment
+//@ func New(url, opts) (res)
+//@   requires forall j int :: 0 <= j && j < len(opts) ==> opts[j] != nil
+//@   ensures res != nil
+//@   ensures len(opts) == 0 ==> res.Value == url
+//@   loop 1 (k):
+//@     invariant data != nil
+//@     invariant k == 0 ==> data.version == "" && data.fragment == ""
+//@     invariant forall j int :: 0 <= j && j < len(opts) ==> opts[j] != nil
